@@ -534,7 +534,7 @@ func appendedVals(e Event) []Val {
 // read from their literals, and each emission (send) is examined in its state snapshot.
 func checkDCV2(ctx *Ctx, r *Report) {
 	fn := ctx.ssaFunc("render/dc", "(*DualContouringV2).generateTriangles")
-	cin := ctx.ssaFunc("render/dc", "(*DualContouringV2).computeCornersInside")
+	cin := voxelCornersFn(ctx)
 	if fn == nil || cin == nil {
 		r.undecided("K2", "dc3v2.generateTriangles", 0, "not found")
 		return
@@ -636,7 +636,7 @@ func checkDCV2(ctx *Ctx, r *Report) {
 		r.check("K2", "dc3v2.computeCornersInside|corner-bit-means-solid", cin.Pos(), ok, "bit i of the result is set iff the distance at the cell's corner dcCorners[i] (low/high coordinate per axis, a cell size apart) is negative; "+detail)
 	}
 	// --- emissions
-	ev := newEval(ctx, "computeCornersInside", "Degenerate")
+	ev := newEval(ctx, cin.Name(), "Degenerate")
 	ev.evalRoot(fn)
 	sends := eventsOf(ev, "send")
 	r.check("K2", "dc3v2.generateTriangles|one-emission-per-axis", fn.Pos(), len(sends) == 3 && !ev.Exceeded, fmt.Sprintf("%d emissions found on the unrolled axis loop (expected 3)", len(sends)))
@@ -1681,7 +1681,7 @@ func checkVertexLockBounds(ctx *Ctx, r *Report) {
 // and their call sites): it may reach the wrapper's BoundingBox or geometry recorded on the
 // voxel, never BoundingBox invoked on the wrapped interface value.
 func checkOneLatticeForBothPasses(ctx *Ctx, r *Report) {
-	target := ctx.ssaFunc("render/dc", "(*DualContouringV2).computeCornersInside")
+	target := voxelCornersFn(ctx)
 	if target == nil {
 		r.undecided("K13", "computeCornersInside", 0, "not found")
 		return
@@ -1759,7 +1759,15 @@ func checkOneLatticeForBothPasses(ctx *Ctx, r *Report) {
 				}
 			}
 		}
-		for _, a := range c.Call.Args[2:] {
+		for _, a := range c.Call.Args {
+			// the position arguments: vectors of floats (not the receiver, the shape or the index)
+			st, ok := a.Type().Underlying().(*types.Struct)
+			if !ok || st.NumFields() == 0 {
+				continue
+			}
+			if b, ok := st.Field(0).Type().Underlying().(*types.Basic); !ok || b.Info()&types.IsFloat == 0 {
+				continue
+			}
 			back(a, ref.in, 0)
 		}
 		sort.Strings(raw)
@@ -1777,7 +1785,7 @@ func checkOneLatticeForBothPasses(ctx *Ctx, r *Report) {
 // eight corner evaluations of computeCornersInside: each coordinate is one function F of
 // float(voxel index + corner offset), the sum taken in integers.
 func checkVoxelCornerLattice(ctx *Ctx, r *Report) {
-	fn := ctx.ssaFunc("render/dc", "(*DualContouringV2).computeCornersInside")
+	fn := voxelCornersFn(ctx)
 	key := "computeCornersInside|corner-positions-are-one-function-of-the-integer-lattice-index"
 	if fn == nil {
 		r.undecided("K14", key, 0, "not found")
@@ -1857,4 +1865,31 @@ func checkVoxelCornerLattice(ctx *Ctx, r *Report) {
 	}
 	r.check("K14", key, fn.Pos(), ok, "every corner sample position is F(float(voxel index + corner offset)) with one F: neighbouring voxels evaluate shared corners at identical coordinates;"+detail)
 	r.floor("K14", 1)
+}
+
+// voxelCornersFn: the function of the voxel renderer that samples the eight corners of a voxel and
+// returns their inside/outside bits - found by what it does (it calls the cached evaluation of
+// the wrapped shape and returns an 8-bit mask), whatever it is called and whether it is a method.
+func voxelCornersFn(ctx *Ctx) *ssa.Function {
+	var out *ssa.Function
+	for _, f := range ctx.srcFuncs("render/dc") {
+		if len(f.Blocks) == 0 || f.Signature.Results().Len() != 1 {
+			continue
+		}
+		if b, ok := f.Signature.Results().At(0).Type().Underlying().(*types.Basic); !ok || b.Kind() != types.Uint8 {
+			continue
+		}
+		calls := false
+		allInstrs(f, func(_ *ssa.BasicBlock, ins ssa.Instruction) {
+			if c, ok := ins.(*ssa.Call); ok {
+				if g := c.Call.StaticCallee(); g != nil && g.Name() == "evaluateCached" {
+					calls = true
+				}
+			}
+		})
+		if calls && (out == nil || f.Pos() < out.Pos()) {
+			out = f
+		}
+	}
+	return out
 }
